@@ -66,7 +66,25 @@ fn replay_common(args: &Args, registry: &[Entry], prop: &str) -> ! {
             match e {
                 Some(e) => {
                     let mut st = CompiledStats::default();
-                    check_compiled(e, 4, 200_000, &mut g, &mut st);
+                    let hdr = crate::util::unhex(w["header"].as_str().unwrap_or(""));
+                    if hdr.is_empty() {
+                        // an emitted-tree group: the tree comparison is the first thing check_compiled does
+                        check_compiled(e, 1, 0, &mut g, &mut st);
+                    } else {
+                        // exactly the recorded header
+                        let text = String::from_utf8_lossy(&hdr).trim_end_matches('\n').to_string();
+                        let (text, query) = match text.strip_suffix('?') {
+                            Some(t) => (t.to_string(), true),
+                            None => (text, false),
+                        };
+                        let (text, abs) = match text.strip_prefix(':') {
+                            Some(t) => (t.to_string(), true),
+                            None => (text, false),
+                        };
+                        let mn: Vec<&str> = text.split(':').collect();
+                        let mut buf = Vec::new();
+                        prog::header_case(e, &e.all_decls(), &mn, abs, query, &mut buf, &mut st, &mut g);
+                    }
                 }
                 None => println!("interface {name} is not part of this tier's generated set"),
             }
